@@ -566,6 +566,31 @@ Proof.
   intros sk H cfg s rq Hs Hb. rewrite (respond_spec sk H). apply (spec_single (has_bcast sk) (gated sk) cfg s rq); assumption.
 Qed.
 
+(* histories: a unit that no request of a served list addresses keeps its store *)
+Lemma c10_serve_isolation : forall sk, In sk all_fes -> forall cfg v, cf_single cfg = false ->
+  forall rqs l, (forall rq, In rq rqs -> is_bcast sk cfg rq = false /\ rq_uid rq <> v) ->
+  u_get S (fst (fst (serve S code sk cfg l rqs))) v = u_get S l v.
+Proof.
+  intros sk Hin cfg v Hs rqs. induction rqs as [|rq t IH]; intros l Hall; cbn; [reflexivity|].
+  destruct (Hall rq (or_introl eq_refl)) as [Hb Hv].
+  pose proof (c10_isolation sk Hin cfg l rq v Hs Hb (fun E => Hv (eq_sym E))) as H1.
+  pose proof (proj1 (c09_at_most_one sk Hin cfg l rq)) as Hn.
+  destruct (respond S code sk cfg l rq) as [[l1 o1] e1]. cbn in Hn, H1. subst e1.
+  specialize (IH l1 (fun rq' H' => Hall rq' (or_intror H'))).
+  destruct (serve S code sk cfg l1 t) as [[l2 o2] e2]. cbn [fst snd] in *. rewrite IH. exact H1.
+Qed.
+
+(* histories: the hosted set is stable over a served list *)
+Lemma c10_serve_keys : forall sk, In sk all_fes -> forall cfg rqs l,
+  u_keys S (fst (fst (serve S code sk cfg l rqs))) = u_keys S l.
+Proof.
+  intros sk Hin cfg rqs. induction rqs as [|rq t IH]; intros l; cbn; [reflexivity|].
+  pose proof (c10_keys sk Hin cfg l rq) as H1.
+  pose proof (proj1 (c09_at_most_one sk Hin cfg l rq)) as Hn.
+  destruct (respond S code sk cfg l rq) as [[l1 o1] e1]. cbn in Hn, H1. subst e1.
+  specialize (IH l1). destruct (serve S code sk cfg l1 t) as [[l2 o2] e2]. cbn [fst snd] in *. rewrite IH. exact H1.
+Qed.
+
 End WithStore.
 
 (* ------------------------------------------------------------------ refutations by witness *)
